@@ -718,6 +718,9 @@ func c14Gen(kind string) *rapid.Generator[c14Msg] {
 			for i := 0; i < n; i++ {
 				m.CAs = append(m.CAs, c14Bytes(t, "ca", 0, 600))
 			}
+		default:
+			// a message without fields (ServerHelloDone): rapid insists that a generator consumes something
+			rapid.Bool().Draw(t, "nofields")
 		}
 		return m
 	})
